@@ -10,6 +10,7 @@ use vstd::prelude::*;
 use vstd::std_specs::convert::*;
 use std::sync::Arc;
 
+// verif: counter-overflow-undecided
 verus! {
 
 pub assume_specification<T, E>[Option::<Result<T, E>>::transpose](o: Option<Result<T, E>>) -> (r: Result<Option<T>, E>)
